@@ -375,6 +375,16 @@ def stage_mem_window_use_not_stored_back(r):
                 return True
         if isinstance(s, LoopIR.WindowStmt) and str(s.rhs.name) == buf:
             return True
+    # ... or the block reaches the staged buffer through an alias declared before it (y = x[6:10, 0:8] ...
+    # stage_mem(block using y, 'x[...]')): accesses through the alias are not redirected to the staging buffer
+    aliases = set()
+    for s in _all_stmts(p._loopir_proc.body):
+        if isinstance(s, LoopIR.WindowStmt) and (str(s.rhs.name) == buf or s.rhs.name in aliases):
+            aliases.add(s.name)
+    if aliases:
+        for s in _all_stmts(blk):
+            if any(_uses(s, a) for a in aliases):
+                return True
     return False
 
 
@@ -641,7 +651,41 @@ def autofission_loop_carried_dependency(r):
     uses_post = set()
     for s in post:
         uses_post |= {rd.name for rd in _all_reads(s)} | set(_writes_in(s, []))
-    return bool((w_pre - local) & uses_post)
+    if (w_pre - local) & uses_post:
+        return True
+    # the same missing check for configuration state: one side writes a field (directly or in a callee)
+    # that the other side reads or writes
+    def cfg_rw(stmts):
+        rd, wr = set(), set()
+        for st in _all_stmts(list(stmts)):
+            if isinstance(st, LoopIR.WriteConfig):
+                wr.add((st.config.name(), st.field))
+            if isinstance(st, LoopIR.Call):
+                r2, w2 = cfg_rw(st.f.body)
+                rd |= r2
+                wr |= w2
+            for e in _cfg_reads(st):
+                rd.add(e)
+        return rd, wr
+
+    r1, w1 = cfg_rw(pre)
+    r2, w2 = cfg_rw(post)
+    return bool((w1 & (r2 | w2)) | (w2 & r1))
+
+
+def _cfg_reads(node, out=None):
+    out = [] if out is None else out
+    if isinstance(node, LoopIR.ReadConfig):
+        out.append((node.config.name(), node.field))
+    for ch in _children(node):
+        if not isinstance(ch, LoopIR.stmt):
+            _cfg_reads(ch, out)
+    if isinstance(node, LoopIR.If):
+        _cfg_reads(node.cond, out)
+    if isinstance(node, LoopIR.For):
+        _cfg_reads(node.lo, out)
+        _cfg_reads(node.hi, out)
+    return out
 
 
 def _reduces_in(node, out):
@@ -876,3 +920,10 @@ def c17_generated_name_not_reserved(r):
 
 def c06_wrap_block_index(r):
     return r.get("property") == "C06" and str((r.get("detail") or {}).get("problem", "")).startswith("block forwarding raised IndexError")
+
+
+def c17_negated_zero_literal(r):
+    """a rewrite substitutes the literal 0 for a negated variable (unroll_loop / shift_loop on `x[-i]`): the tree
+    holds USub(Const 0), printed `-0`; the parser reads `-0` as the literal 0, which prints `0`.  Behaviour is
+    equal; only the printed form differs after the round trip."""
+    return r.get("property") == "C17" and str(r.get("detail", "")).strip() == "expr -0 vs 0" and r.get("behaviour") in ("equal", None)
